@@ -8,6 +8,9 @@ R:   this file renders each descriptor as concrete (url, data, connection type);
      (ExtensionInfo{LatestBlock: 0, ExtensionOverride: consumer's extensions}, rpcprovider_server.go),
      under recover() and a watchdog.
 V:   Trace_ParseGrammar (Obs): TLC evaluates the property (Total, Clean, Agree) on every real result.
++    ExtensionChoice.tla: decision table of explicit extension choices (nil / [] / names) - TLC proves the
+     agreement theorem ProviderHonours at design level and validates the table against the real ParseMsg (Conf on
+     GetExtensions() and ComputeUnits for explicit choices; rule-decided rows are drift only, they belong to C32).
 The "any byte string" quantifier is not reached; only the grammar is explored.
 """
 import json
@@ -249,6 +252,88 @@ def _validate(ctx, vectors, tag, count=True):
     return fails
 
 
+# ---- explicit extension choice: ExtensionChoice.tla decision table bound to the real ParseMsg (Conf) ----
+def _choice_request(v):
+    params = [{"to": ADDR, "data": "0x"}] if v["method"] == "eth_call" else [ADDR]
+    tags = {-2: "latest", -3: "earliest", -4: "pending", -5: "safe", -6: "finalized"}
+    if v["req"] >= 0:
+        params.append(hex(v["req"]))
+    elif v["req"] in tags:
+        params.append(tags[v["req"]])
+    return json.dumps({"jsonrpc": "2.0", "id": 1, "method": v["method"], "params": params})
+
+
+def _choice_validate(ctx, vectors, tag):
+    binp = _bin()
+    jobs = []
+    for v in vectors:
+        it = {"url": "", "data": _choice_request(v), "conn": "POST", "latest": v["latest"]}
+        if v["o"] != "nil":
+            it["override"] = v["list"]
+        jobs.append({"in": {k: v[k] for k in ("req", "latest", "rule", "method", "o", "cfgd")}, "spec": "ETH1", "iface": "jsonrpc",
+                     "rule": v["rule"], "policy": ["archive"] if v["cfgd"] else [], "items": [it]})
+    jpath = os.path.join(ctx.work, tag + "_jobs.json")
+    tpath = os.path.join(ctx.work, tag + "_trace.ndjson")
+    vlib.write_json(jpath, {"repo": vlib.REPO, "jobs": jobs})
+    vlib.run_harness(binp, [jpath, tpath])
+    rows = vlib.read_ndjson(tpath)
+    if len(rows) != len(vectors):
+        raise vlib.Infra("driver produced %d lines for %d vectors" % (len(rows), len(vectors)))
+    res = vlib.tlc_trace(ctx, "Trace_ExtensionChoice", "Trace_ExtensionChoice.cfg", tpath, tag=tag)
+    if not res["accepted"] or res["reached"] != len(rows):
+        raise vlib.Infra("trace walk incomplete (%s, reached %s of %d; see %s)" % (
+            res["violated"], res["reached"], len(rows), res["outfile"]))
+    fails = []
+    for m in re.finditer(r'<<"BAD", (\d+), "(\w+)">>', res["out"]):
+        i, kind = int(m.group(1)), m.group(2)
+        v, o = vectors[i - 1], rows[i - 1]["out"][0]
+        if kind == "bind":
+            raise vlib.Infra("binding: choice vector %s did not parse as intended: %s" % (json.dumps(v), json.dumps(o)[:300]))
+        fails.append({"kind": kind, "vector": v, "out": o, "sig": "override-%s@%s/%s" % (
+            kind, v["o"], "configured" if v["cfgd"] else "unconfigured")})
+    return fails, rows
+
+
+def _choice_stage(ctx):
+    mc = vlib.tlc_mc(ctx, "ExtensionChoice", "ExtensionChoice_mc.cfg", timeout=600)
+    if mc["violated"]:
+        raise vlib.Infra("design-level: ExtensionChoice violates %s (see %s)" % (mc["violated"], mc["outfile"]))
+    ctx.add_mc("ExtensionChoice decision table (provider honours the consumer's choice)", mc)
+    if not ctx.quick:
+        ug = vlib.tlc_mc(ctx, "ExtensionChoice", "ExtensionChoice_unguarded.cfg", timeout=600, tag="ExtensionChoice_unguarded")
+        ctx.notes.append("design-level: with the unguarded eth_call clause (code before F12) ProviderHonours %s" % (
+            "is violated" if ug["violated"] else "holds (unexpected)"))
+    em = vlib.tlc_emit(ctx, "ExtensionChoice", "ExtensionChoice_emit.cfg", timeout=600)
+    vectors = em["behaviours"]
+    fails, rows = _choice_validate(ctx, vectors, "choice")
+    ctx.cov["choice_vectors"] = len(vectors)
+    ctx.cov["choice_archive_attached"] = sum(1 for r in rows if r["out"][0]["arch"])
+    ctx.cov["traces_validated_against_impl"] += len(rows)
+    if ctx.cov["choice_archive_attached"] < 20 or sum(1 for v in vectors if v["o"] != "nil") < 100:
+        raise vlib.Infra("vacuous extension-choice table: %d attached" % ctx.cov["choice_archive_attached"])
+    seen = {}
+    for f in fails:
+        if f["vector"]["o"] == "nil":
+            # the parser's own decision is C32's property; here it is drift only
+            ctx.drift.append("rule-decided marking differs from ExtensionChoice for %s" % json.dumps(f["vector"]))
+            continue
+        seen.setdefault(f["sig"], []).append(f)
+    ctx.cov["choice_failing"] = sum(len(x) for x in seen.values())
+    if not seen:
+        return
+    again, _ = _choice_validate(ctx, [fl[0]["vector"] for fl in seen.values()], "choice_repro")
+    for sig, fl in sorted(seen.items()):
+        w = fl[0]
+        if not [a for a in again if a["sig"] == sig and a["vector"] == w["vector"]]:
+            raise vlib.Infra("counter-example not reproduced: %s %s" % (sig, json.dumps(w["vector"])))
+        v, o = w["vector"], w["out"]
+        ctx.violation(sig, "explicit extension choice %s on a parser %s archive, %s block %s latest %d: real extensions %s cu %s, "
+                      "decision table says archive=%s (%d vectors in this class)" % (
+                          json.dumps(v["list"]), "with" if v["cfgd"] else "without", v["method"], v["req"], v["latest"],
+                          o["exts"], o["cus"], v["exp"], len(fl)),
+                      {"choice_vectors": [v]})
+
+
 def _describe(f):
     r, o = f["vector"], f["out"]
     url, data, conn = render(r)
@@ -284,6 +369,7 @@ def run(ctx):
                         "gRPC bodies are JSON (first byte '{' or '['): the harness has no descriptor registry, binary protobuf bodies are not parsed",
                         "no request headers / metadata; provider side = ExtensionInfo{LatestBlock: 0, ExtensionOverride: consumer extensions}",
                         "hang = no answer within the watchdog (10 s per ParseMsg; the longest observed parse is recorded as max_parse_ms)"]
+    _choice_stage(ctx)
     fails = _validate(ctx, vectors, "grid")
     cov = ctx.cov
     if cov["consumer_accepted"] < 100 or cov["consumer_rejected"] < 50 or cov["provider_parsed"] < 100 or cov["binding_block_matches"] < 10:
@@ -314,6 +400,11 @@ def replay(ctx, path):
     with open(path) as f:
         obj = json.load(f)
     done = set()
+    if obj.get("choice_vectors"):
+        for f in _choice_validate(ctx, obj["choice_vectors"], "replay")[0]:
+            ctx.violation(f["sig"], "replayed choice vector still fails: %s -> %s" % (json.dumps(f["vector"]), f["out"]["exts"]),
+                          {"choice_vectors": [f["vector"]]})
+        return
     for f in _validate(ctx, obj["vectors"], "replay"):
         if f["sig"] in done:
             continue
